@@ -152,6 +152,32 @@ def playStep (cfg : Cfg) (p : PlaySt) : PlayItem → PlaySt
     let (c, rc) := resData cfg none n c
     { p with conn := c, log := s!"resgap:rc={rc}:consumed={c.out.read}:len={n}:ev=[{showEvents c.events}]" :: p.log }
 
+def heldLen : Option Bytes → Int
+  | some b => b.length
+  | none => -1
+
+/-- the documented hand-over protocol (docs/QUICK_START 2.2): alternate between the directions that hold back data until
+    nothing is held or a whole round consumes nothing (`stall`) -/
+def pumpDrain (cfg : Cfg) : Nat → PlaySt → PlaySt × Bool
+  | 0, p => (p, false)
+  | fuel + 1, p =>
+    if p.inOther.isNone && p.outOther.isNone then (p, false) else
+    let bi := heldLen p.inOther
+    let bo := heldLen p.outOther
+    let p := match p.outOther with
+      | some held => callRes cfg held { p with outOther := none }
+      | none => p
+    let p := match p.inOther with
+      | some held => callReq cfg held { p with inOther := none }
+      | none => p
+    if heldLen p.inOther == bi && heldLen p.outOther == bo then (p, true) else pumpDrain cfg fuel p
+
+def pumpAll (cfg : Cfg) (c : Htp.Conn.Conn) (items : List PlayItem) : Htp.Conn.Conn × String :=
+  let p := items.foldl (playStep cfg) { conn := c }
+  let (p, stall) := pumpDrain cfg 16 p
+  let tail := s!"end:in={heldLen p.inOther}:out={heldLen p.outOther}:stall={if stall then 1 else 0}"
+  (p.conn, " ;; ".intercalate (p.log.reverse ++ [tail]))
+
 def playAll (cfg : Cfg) (c : Htp.Conn.Conn) (items : List PlayItem) : Htp.Conn.Conn × String :=
   let p := items.foldl (playStep cfg) { conn := c }
   -- final flush as the test driver does for the response side (and symmetrically for the request side)
@@ -205,6 +231,12 @@ def connOp (slot : Option ConnSlot) : List String → Option ConnSlot × String
         match (items.splitOn ",").mapM parsePlayItem with
         | some its =>
           let (c, out) := playAll s.cfg c its
+          (some { s with conn := c }, out ++ unsupportedMark c)
+        | none => (slot, "bad-op")
+      | ["pump", items] =>
+        match (items.splitOn ",").mapM parsePlayItem with
+        | some its =>
+          let (c, out) := pumpAll s.cfg c its
           (some { s with conn := c }, out ++ unsupportedMark c)
         | none => (slot, "bad-op")
       | ["txfreed"] =>
